@@ -406,21 +406,21 @@ func report(run *runResult, id, tier, out string, known []knownFinding, dump boo
 			"explanation": "Static analysis of /repo's current working tree (go/packages type-checked syntax + go/ssa). " +
 				"Each rule enumerates the constructs it governs and decides, per construct, a structural necessary condition of the property; " +
 				"nothing is executed. " + propertyScope[id] + " Rules applied: " + strings.Join(ruleDocs, " || "),
-			"obligations":          len(obs),
-			"discharged":           nDis,
-			"known_findings":       nKnown,
-			"violations":           nViol,
-			"evaluations":          len(obs),
-			"distinct_nontrivial":  len(distinct),
-			"rule":                 "one evaluation per (rule, function, construct) obligation per build configuration; distinct = distinct obligation keys; an obligation is non-trivial because it is only emitted for a construct the rule governs (call site, emission site, branch, table)",
-			"per_rule":             perRule,
-			"rules":                propertyRules[id],
-			"samples":              samples,
-			"checker_cmd":          fmt.Sprintf("./check %s %s", id, tier),
-			"trusted_base":         []string{"Go type checker", "golang.org/x/tools v0.50.0 go/packages + go/ssa", "flock(2)/O_APPEND/rename(2) semantics of the OS", "encoding/json, bufio, cobra internals"},
-			"build_configs":        run.configs,
-			"program":              run.progInfo,
-			"exhaustive":           true,
+			"obligations":                  len(obs),
+			"discharged":                   nDis,
+			"known_findings":               nKnown,
+			"violations":                   nViol,
+			"evaluations":                  len(obs),
+			"distinct_nontrivial":          len(distinct),
+			"rule":                         "one evaluation per (rule, function, construct) obligation per build configuration; distinct = distinct obligation keys; an obligation is non-trivial because it is only emitted for a construct the rule governs (call site, emission site, branch, table)",
+			"per_rule":                     perRule,
+			"rules":                        propertyRules[id],
+			"samples":                      samples,
+			"checker_cmd":                  fmt.Sprintf("./check %s %s", id, tier),
+			"trusted_base":                 []string{"Go type checker", "golang.org/x/tools v0.50.0 go/packages + go/ssa", "flock(2)/O_APPEND/rename(2) semantics of the OS", "encoding/json, bufio, cobra internals"},
+			"build_configs":                run.configs,
+			"program":                      run.progInfo,
+			"exhaustive":                   true,
 			"deterministic_no_use_of_seed": true,
 		},
 		Assumptions: []string{
